@@ -245,6 +245,8 @@ def r22_result_adapters(ctx, t):
     """R22: closure adapters on a Result are written out as the `match` they abbreviate (std semantics):
          CALL.inspect(|v| S).map_err(Into::into)  ==  match CALL { Ok(v) => { S[*v := v]; Ok(v) } Err(e__) => Err(err_into(e__)) }
          CALL.map(|(a, b)| E)                     ==  match CALL { Ok((a, b)) => Ok(E), Err(e__) => Err(e__) }
+         CALL.map(|(a, b)| E).unwrap()            ==  match CALL { Ok((a, b)) => E, Err(_) => rt_panic_documented_val() }
+         CALL.inspect(|v| S).unwrap()             ==  match CALL { Ok(v) => { S[*v := v]; v } Err(_) => rt_panic_documented_val() }
        (`err_into` is the unit's name for the `From` conversion of the error type)"""
     def insp(m):
         v, st = m.group('v'), m.group('s').strip()
@@ -254,11 +256,41 @@ def r22_result_adapters(ctx, t):
     if t2 != t:
         ctx.hit('R22')
     t = t2
+    def inspu(m):
+        v, st = m.group('v'), m.group('s').strip()
+        st = re.sub(r'\*' + re.escape(v) + r'\b', v, st)
+        return 'match %s { Ok(%s) => { %s; %s } Err(_) => rt_panic_documented_val() }' % (m.group('call'), v, st, v)
+    t2 = re.sub(_CALL + r'\s*\.inspect\(\|(?P<v>\w+)\|\s*(?P<s>[^|;{}]+?)\)\s*\.unwrap\(\)', inspu, t)
+    if t2 != t:
+        ctx.hit('R22')
+    t = t2
+    def mpu(m):
+        return 'match %s { Ok((%s, %s)) => %s, Err(_) => rt_panic_documented_val() }' % (m.group('call'), m.group('a'), m.group('b'), m.group('e').strip())
+    t2 = re.sub(_CALL + r'\s*\.map\(\|\((?P<a>\w+), (?P<b>\w+)\)\|\s*(?P<e>\((?:[^()]|\([^()]*\))*\))\)\s*\.unwrap\(\)', mpu, t)
+    if t2 != t:
+        ctx.hit('R22')
+    t = t2
     def mp(m):
         return 'match %s { Ok((%s, %s)) => Ok(%s), Err(e__) => Err(e__) }' % (m.group('call'), m.group('a'), m.group('b'), m.group('e').strip())
     t2 = re.sub(_CALL + r'\s*\.map\(\|\((?P<a>\w+), (?P<b>\w+)\)\|\s*(?P<e>\((?:[^()]|\([^()]*\))*\))\)(?!\s*\.)', mp, t)
     if t2 != t:
         ctx.hit('R22')
+    return t2
+
+
+def r24_io_error_adapters(ctx, t):
+    """R24 (profile plain): the std::io wrappers `write_*` / `io::Write::write`
+         CALL.map_err(|e| std::io::Error::new(std::io::ErrorKind::K, e))[.map(|_| E)]
+           ==  match CALL { Ok(v__) => Ok(v__ | E), Err(e) => Err(io_error_new(IoKind::K, e)) }
+       (`io_error_new` / `IoKind` are the unit's names for std::io::Error::new / ErrorKind: an opaque error that records
+       kind and source); `std::io::Result<X>` in the signature is written `Result<X, IoError>`."""
+    def rep(m):
+        ok = 'Ok(_) => Ok(%s)' % m.group('e').strip() if m.group('e') else 'Ok(v__) => Ok(v__)'
+        return 'match %s { %s, Err(%s) => Err(io_error_new(IoKind::%s, %s)) }' % (m.group('call'), ok, m.group('v'), m.group('k'), m.group('v'))
+    t2 = re.sub(_CALL + r'\s*\.map_err\(\|(?P<v>\w+)\|\s*std::io::Error::new\(std::io::ErrorKind::(?P<k>\w+),\s*(?P=v)\)\)'
+                r'(?:\s*\.map\(\|_\|\s*(?P<e>(?:[^()|;{}]|\([^()]*\))+?)\))?(?!\s*\.)', rep, t)
+    if t2 != t:
+        ctx.hit('R24')
     return t2
 
 
@@ -305,6 +337,10 @@ def translate(text, ctx, closure_specs=()):
         body = r3b_header_writes(ctx, body)
     if ctx.profile == 'plain':
         body = r22_result_adapters(ctx, body)
+        body = r24_io_error_adapters(ctx, body)
+        if 'std::io::Result<' in sig:
+            sig = re.sub(r'std::io::Result<((?:[^<>]|<[^<>]*>)*)>', r'Result<\1, IoError>', sig)
+            ctx.hit('R24')
         if getattr(ctx, 'slices', False):
             body = r23_slice_ranges(ctx, body)
     body = r14_closures(ctx, body, closure_specs)
